@@ -285,7 +285,11 @@ def run(ck):
     # ... and the timeout stays armed for the whole handshake read: no reset is followed by another blocking read of the handshake
     from sa.paths import reaches as _reaches
     recvs_ = [i for i in rh.walk() if (rh.nodes[i].get('callee') or '').endswith('recv_all')]
-    ck.floor('C14.timeout', 'blocking reads in read_handshake_payload', len(recvs_), 2)
+    raw_recv = [i for i in rh.walk() if (rh.nodes[i].get('callee') or '').lstrip(':') in ('recv', 'read', 'recvfrom', 'recvmsg')]
+    ck.ob('C14.frame', 'C14.frame/handshake-read-exact', len(recvs_) == 2 and not raw_recv, rh.loc(raw_recv[0]) if raw_recv else rh.loc(),
+          'read_handshake_payload takes exactly the length prefix and then exactly the announced body off the socket (two recv_all calls, no raw recv into a '
+          'scratch buffer): bytes queued behind the handshake stay in the socket for the frame reader')
+    ck.floor('C14.timeout', 'blocking reads in read_handshake_payload', len(recvs_), 1)
     early = [(r_, c_) for r_ in sorted(releases) for c_ in recvs_ if r_ in rh.nodes.keys() if False] if isinstance(rh.nodes, dict) else \
         [(r_, c_) for r_ in sorted(releases) for c_ in recvs_ if _reaches(rh, r_, c_)]
     ck.ob('C14.timeout', 'C14.timeout/armed-for-every-read', not early, rh.loc(early[0][0]) if early else rh.loc(),
